@@ -21,8 +21,17 @@ def gen_small_dem(rng, graphlike_only):
     for _ in range(nerr):
         k = rng.choice([0, 1, 1, 2, 2, 2, 3]) if not graphlike_only else rng.choice([0, 1, 1, 2, 2, 2])
         ds = [rng.randrange(nd) for _ in range(k)]
-        if rng.random() < 0.8:
+        r = rng.random()
+        if r < 0.7:
             ds = list(dict.fromkeys(ds))           # mostly distinct; sometimes repeated (cancelling) detectors
+        elif r < 0.85 and ds:
+            # a detector repeated around / between other detectors: D0 D1 D0, D0 D1 D2 D0, D1 D0 D0 ...
+            ds = list(dict.fromkeys(ds))
+            x = rng.choice(ds)
+            pos = sorted(rng.sample(range(len(ds) + 1), 1))[0]
+            ds = ds[:pos] + [x] + ds[pos:]
+            if rng.random() < 0.3:
+                ds.append(rng.choice(ds))
         ts = ['D%d' % d for d in ds]
         if rng.random() < 0.4:
             ts.append('L%d' % rng.randrange(nobs))
@@ -138,7 +147,8 @@ def parse_result(lines):
 def run(rep, tier):
     quick = tier == 'quick'
     svh = core.Svh('o1', timeout=60)
-    rep.set_proof(core.prove(['Properties_C17.v']))
+    from checks import c11
+    rep.set_proof(c11.prove_shared(['Properties_C17.v']))
     rep.trusted += ['Coq 8.16.1 kernel', 'harness/c17.cc', 'exhaustive minimum over subsets (Python) on models with <= 15 usable symptom sets']
     rep.assumptions += ['the graph builder Graph::from_dem and the hypergraph search are tied by the exhaustive oracle, not modelled in Coq; '
                         'the instantiation of bfs_nearest with the search\'s successor function is not assembled']
